@@ -14,8 +14,8 @@ ASSUMPTIONS = [
 SUBS = [
     # budgets sized for ~15 s (quick) / ~1.5 min (thorough) per shard on an idle machine, 3-5x that on the shared one; maxsec only truncates
     # (never fails) when the machine is shared
-    dict(name="heap", quick=dict(cases=12000, shards=10, maxsec=25), thorough=dict(cases=32000, shards=10, maxsec=300)),
-    dict(name="timerqueue", quick=dict(cases=12000, shards=6, maxsec=25), thorough=dict(cases=32000, shards=6, maxsec=300)),
+    dict(name="heap", quick=dict(cases=18000, shards=10, maxsec=25), thorough=dict(cases=32000, shards=10, maxsec=300)),
+    dict(name="timerqueue", quick=dict(cases=20000, shards=6, maxsec=25), thorough=dict(cases=32000, shards=6, maxsec=300)),
 ]
 
 
